@@ -348,6 +348,35 @@ def ambiguityOf (etas : List Rat) (normalization : Bool) (x : MC.Input) (R : Nat
     Option (Grid Val) :=
   Confidence.ambiguityBand etas normalization 1 (volumeOf x.L.rows x.L.cols R)
 
+/-! ## the memoised evaluation the driver uses: every stage is tabulated on the image once and read back
+    (`Properties/C13RunMemo.lean`: it equals the literal run) -/
+
+/-- the two maps tabulated on the `rows × cols` image and read back (outside the image: NaN / 0) -/
+def Maps.memo (rows cols : Nat) (m : Maps) : Maps :=
+  let gd := Blocks.tabulate rows cols m.disp
+  let gf := Blocks.tabulate rows cols m.flag
+  ⟨fun r c => (gd.getD r []).getD c .nan, fun r c => (gf.getD r []).getD c 0⟩
+
+/-- the tail with every intermediate map memoised -/
+def afterTailMemoFrom (K : RunCfg) (x : MC.Input) (R : Nat → Nat → List Val) : List TailStep → Maps → Option Maps
+  | [], m => some m
+  | s :: rest, m =>
+    ((tailStep K x R m s).map (Maps.memo x.L.rows x.L.cols)).bind (afterTailMemoFrom K x R rest)
+
+def afterTailMemo (K : RunCfg) (x : MC.Input) (R : Nat → Nat → List Val) (tail : List TailStep) : Option Maps :=
+  afterTailMemoFrom K x R tail (Maps.memo x.L.rows x.L.cols ⟨wtaMapR K x R, C04C02.composedMask x⟩)
+
+/-- `extRunR` on the memoised tails (the cross-checks and the filling are those of `extRunR`) -/
+def extRunMemo (K K' : RunCfg) (tail tail' : List TailStep) (V : CrossCheck.Variant) (CP CP' : CrossCheck.Params)
+    (F : FillCfg) (x : MC.Input) (R R' : Nat → Nat → List Val) : Option (Interp.DMap × Interp.DMap) :=
+  match afterTailMemo K x R tail, afterTailMemo K' (swapInput x) R' tail' with
+  | some A, some B =>
+    let rows := x.L.rows
+    let cols := x.L.cols
+    let lr := CrossCheck.validationRun V CP CP' (leftDataset rows cols A) (leftDataset rows cols B)
+    some (fillOf F (dmapOfOut rows cols lr.1), fillOf F (dmapOfOut rows cols lr.2))
+  | _, _ => none
+
 /-! ## decidable forms of the hypotheses of `run_crop_eq_whole` (new; `Properties/C13RunBool.lean` proves that they
     imply the hypotheses) -/
 
